@@ -628,6 +628,10 @@ class Manager:
 
             self._cache[(event.name, channels)] = event_handlers
 
+        # (a handler may flush() or tick() while it runs: when this nested
+        # dispatch is over, that handler's event is the handled one again)
+        handling = self._currently_handling
+
         if isinstance(event, generate_events):
             with self._lock:
                 self._currently_handling = event
@@ -684,7 +688,7 @@ class Manager:
             if event.stopped:
                 break  # Stop further event processing
 
-        self._currently_handling = None
+        self._currently_handling = handling
         self._eventDone(event, err)
 
     def _eventDone(self, event, err=None):
